@@ -125,7 +125,13 @@ fn mutate(rng: &mut Rng, base: &str, stack: bool) -> (String, &'static str) {
     let mut lines = lines_of(base);
     let n = lines.len().max(1);
     let at = rng.usize_below(n);
-    match rng.below(14) {
+    match rng.below(15) {
+        14 => {
+            // A text on which the assembler itself crashes (C05's subject, not this property's):
+            // what matters here is what a watcher that survives it says about the next version
+            lines.insert(at, "    ld r1, .fill #3".to_string());
+            (lines.join("\n") + "\n", "assembler_panic")
+        }
         13 => {
             // Labels that differ only in letter case, and a reference spelled like neither
             lines.push("case_lbl_q .fill x0001".to_string());
@@ -609,6 +615,17 @@ fn real_watch(texts: &[String], scenario: &J, report: &mut Report, v: &mut Vec<V
         out.truncate(5);
         report.hit("fault:same_length_versions_with_one_modification_time");
         out
+    } else if styles & 2 == 2 && !texts.is_empty() {
+        // The first version, then the same text with a line on which the assembler crashes, then
+        // the rest: a watcher that survives the crash is judged on what follows
+        let mut out: Vec<String> = vec![texts[0].clone()];
+        let mut lines: Vec<&str> = texts[0].lines().collect();
+        // (late in the file: the labels above it have been recorded by then)
+        let at = lines.iter().rposition(|l| l.trim().eq_ignore_ascii_case(".end")).unwrap_or(lines.len());
+        lines.insert(at, "    ld r1, .fill #3");
+        out.push(lines.join("\n") + "\n");
+        out.extend(texts.iter().skip(1).take(3).cloned());
+        out
     } else {
         texts.iter().take(5).cloned().collect()
     };
@@ -620,7 +637,7 @@ fn real_watch(texts: &[String], scenario: &J, report: &mut Report, v: &mut Vec<V
     let renames: Vec<bool> = vec![false; texts.len()];
     let scratch = Scratch::new("c19watch");
     let mut run = run_watch(&scratch, &texts, &renames, pin_mtime);
-    let differs = |run: &crate::world_watch::WatchRun| run.seen.iter().enumerate().any(|(i, s)| s.as_ref() != run.fresh.get(i));
+    let differs = |run: &crate::world_watch::WatchRun| run.seen.iter().enumerate().any(|(i, s)| run.fresh.get(i).is_some_and(|f| f != "PANIC") && s.as_ref() != run.fresh.get(i));
     if run.spawn_error.is_none() && (run.died.is_some() || differs(&run)) {
         // Only a verdict if it repeats: this is the one place where the load of the machine and
         // the timing of notifications could show
@@ -637,6 +654,11 @@ fn real_watch(texts: &[String], scenario: &J, report: &mut Report, v: &mut Vec<V
     }
     for (i, seen) in run.seen.iter().enumerate() {
         let fresh = &run.fresh[i];
+        if fresh == "PANIC" {
+            // Whatever the watcher showed for a text that crashes the assembler is not judged
+            report.hit("fault:version_that_crashes_the_assembler");
+            continue;
+        }
         if renames[i] {
             report.hit("fault:save_by_rename");
         }
